@@ -690,3 +690,42 @@ Theorem peak_block sz gs rho s : rho_ok sz gs rho -> peak_of (idec_block sz gs) 
 Proof. intros Hr. exact (pk_peak rho _ _ _ s (pk_block sz gs rho Hr 0)). Qed.
 Theorem peak_prefix sz gs rho s : rho_ok sz gs rho -> peak_of (idec_prefix sz) s <= 2 * CAP + rho * lenN s.
 Proof. intros Hr. pose proof (pk_peak rho _ _ _ s (pk_prefix sz gs rho Hr 0)). lia. Qed.
+
+(* ---- a rho for every pair of tables -------------------------------------------------------------------------------------------- *)
+Definition cdiv (a b : N) : N := (a + b - 1) / b.
+Lemma cdiv_le a b r : 0 < b -> cdiv a b <= r -> a <= b * r.
+Proof.
+  intros Hb Hr. unfold cdiv in Hr. pose proof (N.div_mod' (a + b - 1) b) as E. pose proof (N.mod_lt (a + b - 1) b ltac:(lia)) as M.
+  assert (b * ((a + b - 1) / b) <= b * r) by (apply N.mul_le_mono_l; exact Hr). lia.
+Qed.
+Definition rho_of (sz : sizes) (gs : gsizes) : N :=
+  fold_right N.max 8
+    [ cdiv (sz_txin sz) 2; cdiv (sz_txin sz + 4 * g_row gs) 35; cdiv (sz_txout sz) 34; cdiv (sz_bulletproof sz) 290;
+      cdiv (sz_bpplus sz) 194; cdiv (sz_rangesig sz) 6176; cdiv (4 * g_ecdh gs) 8; cdiv (4 * g_clsag gs) 64;
+      cdiv (4 * g_mgsig gs) 32; cdiv (4 * g_row gs + 32) 32 ].
+Lemma rho_of_ok sz gs : rho_ok sz gs (rho_of sz gs).
+Proof.
+  unfold rho_ok, rho_of. cbn [fold_right].
+  repeat match goal with |- _ /\ _ => split end; try (apply cdiv_le; lia). lia.
+Qed.
+
+Theorem peak_tx_all sz gs s : peak_of (idec_tx sz gs) s <= 2 * CAP + AG gs + rho_of sz gs * lenN s.
+Proof. apply peak_tx, rho_of_ok. Qed.
+Theorem peak_block_all sz gs s : peak_of (idec_block sz gs) s <= 2 * CAP + AG gs + rho_of sz gs * lenN s.
+Proof. apply peak_block, rho_of_ok. Qed.
+
+Lemma rho_default : rho_of default_sizes default_gsizes = 33 /\ AG default_gsizes = 1316.
+Proof. split; vm_compute; reflexivity. Qed.
+(* 32 is not enough for the real tables: EcdhInfo is 65 bytes for 8 wire bytes and a Vec grown by push holds 4 slots after the
+   first push *)
+Lemma rho_32_not_ok : ~ rho_ok default_sizes default_gsizes 32.
+Proof. unfold rho_ok. cbn. lia. Qed.
+
+(* ---- the bound is reached up to the additive constant: two nested reservations of 32 MiB each on a 13-byte input ------------ *)
+(* version 2, unlock 0, 2^19 inputs declared (64 bytes each = 32 MiB), first input ToKey, amount 0, 2^22 key offsets declared
+   (8 bytes each = 32 MiB), then end of input *)
+Definition two_level_input : bytes := [x02; x00; x80; x80; x20; x02; x00; x80; x80; x80; x02].
+Lemma two_level_peak :
+  fst (idec_tx default_sizes default_gsizes two_level_input (0, 0)) = (Err EEof, []) /\
+  peak_of (idec_tx default_sizes default_gsizes) two_level_input = 2 * CAP.
+Proof. split; vm_compute; reflexivity. Qed.
